@@ -21,6 +21,12 @@ def timed_case(draw, max_sources=3):
                     "zero": draw(st.integers(0, 9)) == 0,
                     "omit_times": draw(st.booleans()),     # an endless source asked for by leaving times out
                     "deferred": draw(st.sampled_from([True, True, False, None]))})
+  if draw(st.integers(0, 9)) == 0:
+    # a long count (beyond the interpreter's shared small integers), at a short period
+    k = draw(st.integers(0, n - 1))
+    sources[k]["times"] = draw(st.sampled_from([257, 300]))
+    sources[k]["period"] = 1e-3
+    sources[k]["zero"] = False
   for src in sources:
     # a zero period is a period too: n immediate postings (never generated as an endless source)
     if src.pop("zero") and src["times"] >= 1:
@@ -95,7 +101,7 @@ class C10(Prop):
   rule = ("Generated timed sources under the deterministic scheduler with a virtual clock (time "
           "advances only when every thread is blocked): 1-3 concurrent post_fifo/post_lifo calls "
           "with period p (from a set with equal, tiny (1e-6) and long periods, any float in "
-          "[1e-4, 5], or 0 for sources with a repeat count), times n in {0,1,2,3,4,6} and deferred True/False/default, optionally while "
+          "[1e-4, 5], or 0 for sources with a repeat count), times n in {0,1,2,3,4,6} (one case in ten a count of 257 or 300 at a period of 1 ms) and deferred True/False/default, optionally while "
           "the object's thread is parked behind a gate with plain events pending, optionally made "
           "BEFORE start_at (the chart is started 0-1.3 s later), under generated "
           "schedules; in a quarter of the cases one posting of one source takes 1.5-4 periods of virtual time (the posting thread falls behind; then the oracle is: exact count, first posting not early, never two postings of a source less than a period apart). Each posting is stamped with virtual time by an overriding post method. "
